@@ -61,6 +61,13 @@ def loop {S G D : Type} (P : Prng S G D) (n : Nat) (a : SeedArg S G) (glob : G) 
   let r := loopS P n (toStream P a) glob
   (r.1, (match a with | .int s => .int s | _ => r.2.1), r.2.2)
 
+/-- the generator state the run actually starts from -/
+def startOf {S G D : Type} (P : Prng S G D) (a : SeedArg S G) (glob : G) : G :=
+  match a with
+  | .int s => P.ofSeed s
+  | .gen g => g
+  | .none => glob
+
 /-- the repetition loop as a function of the one fact about its shape that matters (read off the source by the
 translator, `QGen.C15.loopPassesStream`): does every repetition receive the stream converted once before the loop, or the
 raw argument, which each repetition then converts anew? -/
@@ -120,8 +127,19 @@ def runBatches {R St : Type} (task : Nat → St → R × St) (s0 : St) (batches 
 
 /-! ## re-estimation from stored empirical distributions -/
 
-/-- `re_estimate(test_setting, result, i)`: the estimator applied to the stored data of repetition `i` -/
-def reEstimate {D E : Type} (est : D → E) (stored : List D) (i : Nat) : Option E := (stored[i]?).map est
+/-- the estimates a run stores: the repetitions are estimated one after the other with the one loss / algorithm object of
+the setting (state `St` threaded through the estimates), `est d s` = (estimate of data `d`, object state afterwards) -/
+def storedEstimates {D E St : Type} (est : D → St → E × St) : St → List D → List E
+  | _, [] => []
+  | s, d :: ds => (est d s).1 :: storedEstimates est (est d s).2 ds
+
+/-- `re_estimate(test_setting, result, i)`: the estimator applied to the stored data of repetition `i`, with the loss /
+algorithm objects of the stored setting in the state `s` they are in when the call is made -/
+def reEstimate {D E St : Type} (est : D → St → E × St) (s : St) (stored : List D) (i : Nat) : Option E :=
+  (stored[i]?).map fun d => (est d s).1
+
+/-- a toy seed tree for the executable checks -/
+def toyTree : SeedTree Nat := ⟨fun s i => s * 31 + i + 1⟩
 
 /-! ## depolarising noise -/
 section depol
@@ -185,7 +203,7 @@ def allPass (f : Verdict → Bool) (nNum : Nat) (results : List (List Verdict)) 
   allPassFrom f results (List.range nNum)
 
 /-- `execute_physicality_violation_check`; `para` is `estimation_results[0].estimated_qoperation.on_para_eq_constraint` -/
-def violationCheck (kind : EstKind) (para : Bool) (nNum : Nat) (results : List (List Verdict)) : Option Bool :=
+def violationCheckCore (kind : EstKind) (para : Bool) (nNum : Nat) (results : List (List Verdict)) : Option Bool :=
   match kind with
   | .projLinear => allPass (fun v => v.eqOK && v.ineqOK) nNum results
   | .linear => if para then allPass (·.eqOK) nNum results else some true
@@ -195,6 +213,19 @@ def violationCheck (kind : EstKind) (para : Bool) (nNum : Nat) (results : List (
       let b ← if onIneq then allPass (·.ineqOK) nNum results else some true
       some (a && b)
   | .other => some true
+
+/-- does the check index `estimation_results[0]` for this estimator (to read `on_para_eq_constraint`)? — with no stored
+result that is an IndexError -/
+def indexesFirst (kind : EstKind) (nNum : Nat) : Bool :=
+  match kind with
+  | .projLinear => decide (0 < nNum)        -- inside the loop over sample sizes (`calc_unphysical_qobjects_n`)
+  | .linear => true                          -- `para = estimation_results[0]…` before the branch
+  | .lossMin (some (true, _)) => true        -- `is_eq_constraint_satisfied_all` reads it before its loop
+  | _ => false
+
+/-- `execute_physicality_violation_check`; `para` is `estimation_results[0].estimated_qoperation.on_para_eq_constraint` -/
+def violationCheck (kind : EstKind) (para : Bool) (nNum : Nat) (results : List (List Verdict)) : Option Bool :=
+  if results.isEmpty && indexesFirst kind nNum then none else violationCheckCore kind para nNum results
 
 /-- which constraints the estimator was configured to enforce -/
 def enforcesEq : EstKind → Bool → Bool
@@ -262,6 +293,10 @@ def handle (args : List String) : Option String :=
         | "int" => some (.int seed) | "gen" => some (.gen (lcg.ofSeed seed)) | "none" => some .none | _ => none
       let r := loop lcg n a (lcg.ofSeed 7)
       some (showList toString r.1 ++ " " ++ toString r.2.2)
+  | ["flow", seed, n] => do
+      let seed ← seed.toNat?
+      let n ← n.toNat?
+      some (showList toString (flowData lcg toyTree seed n))
   | ["batches", n, bs] => do
       -- tasks `i ↦ (i + state, state + 1)` (a state-dependent task) run in the given batches
       let n ← n.toNat?
